@@ -2,6 +2,7 @@
 mod c02;
 mod c03;
 mod c04;
+mod c05;
 mod c06;
 use c06 as c06_support;
 mod exec;
@@ -44,6 +45,7 @@ fn main() {
         ("exec", "run") => exec::cmd_run(rest),
         ("c03", "run") => c03::cmd_run(rest),
         ("c04", "run") => c04::cmd_run(rest),
+        ("c05", "run") => c05::cmd_run(rest),
         ("c06", "walk") => c06::cmd_walk(rest),
         ("c11", "run") => c11::cmd_run(rest),
         ("c13", "run") => c13::cmd_run(rest),
